@@ -14,6 +14,7 @@ import (
 	"encoding/json"
 	"flag"
 	"fmt"
+	"io"
 	"os"
 	"path/filepath"
 	"sort"
@@ -21,6 +22,7 @@ import (
 	"sync"
 	"time"
 
+	"github.com/sirupsen/logrus"
 	"verifharness/cv"
 	"verifharness/proxykit"
 )
@@ -28,7 +30,7 @@ import (
 const nKeys = 3
 const nonceFailKey = 2 // eth_getTransactionCount for this held address is answered with an RPC error
 
-const header = `From Coq Require Import List NArith ZArith Bool Uint63.
+const header = `From Coq Require Import String List NArith ZArith Bool Uint63.
 From FFS Require Import Base.Bytes Base.Lit Rpc.Body Rpc.RunC16.
 Import ListNotations.
 Open Scope N_scope.`
@@ -219,6 +221,7 @@ func main() {
 	replay := flag.String("replay", "", "replay file")
 	flag.Parse()
 	thorough := *tier == "thorough"
+	logrus.SetOutput(io.Discard) // pkg/ethtypes logs every number it cannot parse
 	if err := os.MkdirAll(*out, 0o755); err != nil {
 		panic(err)
 	}
@@ -290,7 +293,7 @@ func main() {
 	close(next)
 	wg.Wait()
 
-	w := cv.NewWriter(*out, "C16", header, "case", "mismatches", 16)
+	w := newCaseWriter(*out, "C16", header, 16)
 	deaths, badExit := 0, 0
 	for s := range seqs {
 		if errs[s] != nil {
@@ -422,7 +425,7 @@ func doReplay(rn *runner, path string) {
 			verdict = "(VTree " + tree.coq() + ")"
 		}
 		st := cv.NewStats()
-		w := cv.NewWriter(rn.out, "C16", header, "case", "mismatches", 1)
+		w := newCaseWriter(rn.out, "C16", header, 1)
 		w.Add(fmt.Sprintf("(C16Case %s %s %s %s)", cv.Compress(body).Coq(), verdict, txnTable(body, tree, proxykit.GenKeys(cv.NewRand(1601).Bytes, nKeys), st.Hit), res.obs),
 			map[string]interface{}{"kind": "replay", "body": describeBody(body), "body_dsl": cv.Compress(body)})
 		_ = w.Flush()
